@@ -7,8 +7,33 @@ import (
 	"flag"
 	"fmt"
 	"os"
+	"runtime"
 	"strings"
+	"sync/atomic"
+	"time"
 )
+
+// progress counts emitted lines; the watchdog ends the process when it stands still: a call into
+// the implementation that never returns (a lock that is not released, an endless loop) must
+// become a report, not a hung check.
+var progress atomic.Int64
+
+func watchdog(limit time.Duration) {
+	last, since := int64(-1), time.Now()
+	for {
+		time.Sleep(time.Second)
+		if p := progress.Load(); p != last {
+			last, since = p, time.Now()
+			continue
+		}
+		if time.Since(since) > limit {
+			buf := make([]byte, 1<<16)
+			buf = buf[:runtime.Stack(buf, true)]
+			fmt.Fprintf(os.Stderr, "fatal error: harness watchdog: no progress for %v after %d lines: a call into the implementation does not return (deadlock or endless loop)\n%s\n", limit, last, buf)
+			os.Exit(3)
+		}
+	}
+}
 
 func main() {
 	suite := flag.String("suite", "", "suite name")
@@ -18,7 +43,9 @@ func main() {
 	implPath := flag.String("impl", "", "output: implementation output lines")
 	replay := flag.String("replay", "", "re-execute the case lines of this file instead of generating")
 	adv := flag.Bool("adversarial", false, "perform caller-side and handler-side in-place mutations (C12)")
+	stall := flag.Duration("stall", 120*time.Second, "watchdog: give up when no line has been produced for this long")
 	flag.Parse()
+	go watchdog(*stall)
 	adversarial = *adv
 	var cases, impl strings.Builder
 	e := &emitter{cases: &cases, impl: &impl}
